@@ -218,7 +218,7 @@ class G16:
             elif k == "sub":
                 self.subprogram(None, 0)
             else:
-                with_stmt = not (nunits == 1 and r.chance(40))
+                with_stmt = not r.chance(35)
                 nm = self.uname("prog") if with_stmt else "fparser2:main_program"
                 sc = Scope("program", nm, None)
                 self.tops.append(sc)
